@@ -121,9 +121,9 @@ class Ellipsoid(Shape3D):
             scale (float):
                 Scale factor.
         """
-        self.a *= scale
-        self.b *= scale
-        self.c *= scale
+        self.a = self.a * scale
+        self.b = self.b * scale
+        self.c = self.c * scale
 
     @property
     def volume(self):
